@@ -47,6 +47,8 @@ CONFIGS = {
     'expiry2': ({'c1': [op(A, job=1), op(A, job=2)], 'ctl': [op(S), op(RS), op(WU)]}, {'Conc0': 2, 'Expiry': True}, 'heavy'),
     'ctx': ({'c1': [op(A, job=1)], 'ctl': [op(RS)], 'x': [op(CC)]}, {'WithCtx': True, 'Jobs': [1]}, 'thorough'),
     'ctx0': ({'ctl': [op(RS)], 'x': [op(CC)]}, {'WithCtx': True, 'Jobs': [1]}, 'quick'),
+    'ctxpause': ({'c1': [op(A, job=1)], 'ctl': [op(P), op(R), op(WU)], 'x': [op(CC)]}, {'WithCtx': True, 'Jobs': [1]}, 'quick'),
+    'ctxpause2': ({'c1': [op(A, job=1)], 'ctl': [op(PW), op(R), op(P), op(WU)], 'x': [op(CC)]}, {'WithCtx': True, 'Jobs': [1]}, 'thorough'),
     'tuneratio': ({'c1': [op(A, job=1), op(WU)], 'ctl': [op(T, n=2), op(T, n=1), op(T, n=3)]}, {'Jobs': [1], 'Nodes': [1, 2, 3], 'PGSeq': ['pg1', 'pg2', 'pg3'], 'Conc0': 3, 'Ratio': 100}, 'quick'),
     'batch': ({'c1': [op(AA, n=1), op(BR, n=1)], 'w1': [op(BW, n=1)]}, {'Conc0': 2, 'WK': 'result', 'BatchOf': {1: 1, 2: 1}}, 'quick'),
     'batch0': ({'c1': [op(AA, n=1), op(BR, n=1), op(A, job=1), op(RES, job=1)]}, {'WK': 'err', 'BatchOf': {1: 0}, 'Jobs': [1], 'Outcome': {1: 'err'}}, 'quick'),
